@@ -50,8 +50,14 @@ def arity_checks(f):
     return out
 
 
+def _noderef(p):
+    return {"l": p["l"], "p": [e for e in p["p"] if e != "deref"]}
+
+
 def _same_place(a, b):
-    return a is not None and b is not None and a["l"] == b["l"] and M.place_key(a) == M.place_key(b)
+    """reference-insensitive place equality (`*_6` and `_6` name the same slice)."""
+    return a is not None and b is not None and a["l"] == b["l"] and \
+        M.place_key(_noderef(a)) == M.place_key(_noderef(b))
 
 
 def d_arity(P, f, s):
